@@ -578,6 +578,17 @@ pub fn dump<'tcx>(tcx: TyCtxt<'tcx>, out: &mut Out) {
                 json::str(&mut o, &vis_s(tcx, did));
                 o.push_str(",\"name\":");
                 json::str(&mut o, tcx.item_name(did).as_str());
+                let sig = tcx.fn_sig(did).instantiate_identity().skip_norm_wip().skip_binder();
+                o.push_str(",\"ret\":");
+                json::str(&mut o, &ty_s(sig.output()));
+                o.push_str(",\"params\":[");
+                for (i, t) in sig.inputs().iter().enumerate() {
+                    if i > 0 {
+                        o.push(',');
+                    }
+                    json::str(&mut o, &ty_s(*t));
+                }
+                o.push(']');
             }
             // enclosing item (closures: the defining fn; assoc fns: impl self type / trait)
             let parent = tcx.parent(did);
